@@ -157,6 +157,8 @@ struct Tester
     Violation want;
     bool crash_mode; // candidates are executed in a forked child (crash classes)
     uint64_t execs = 0;
+    std::string planfile = std::string(); // isolate mode: every candidate is written before it runs
+    const ReplayFile* meta = nullptr;
 
     // classify stderr of a dead child
     static std::string classify(const std::string& err, int status)
@@ -196,7 +198,13 @@ struct Tester
             return "ubsan:" + words(err, pos + 15, 4);
         pos = err.find("ERROR: AddressSanitizer: ");
         if (pos != std::string::npos)
-            return "asan:" + words(err, pos + 25, 3);
+        {
+            // first blank-delimited token, e.g. heap-use-after-free, SEGV, ABRT
+            std::string k;
+            for (size_t i = pos + 25; i < err.size() && err[i] != ' ' && err[i] != '\n'; i++)
+                k += (isalnum(static_cast<unsigned char>(err[i])) || err[i] == '-' || err[i] == '_') ? err[i] : '_';
+            return "asan:" + k;
+        }
         if (err.find("SIM-HANG") != std::string::npos)
             return "hang";
         if (WIFSIGNALED(status))
@@ -210,6 +218,12 @@ struct Tester
     Violation run(const Plan& p)
     {
         ++execs;
+        if (!planfile.empty() && meta)
+        {
+            ReplayFile r = *meta;
+            r.plan = p;
+            write_file(planfile, replay_to_string(e, r));
+        }
         if (!crash_mode)
         {
             Outcome o = e.execute(p, cfg);
@@ -705,6 +719,17 @@ int sim_main(int argc, char** argv, Engine& e)
             return;
         }
         Tester t{ e, cfg, o.v, false };
+        ReplayFile meta;
+        meta.engine = e.name();
+        meta.prop = cfg.prop;
+        meta.tier = cfg.tier;
+        meta.seed = cfg.batch_seed;
+        meta.run = static_cast<int64_t>(i);
+        if (isolate)
+        {
+            t.planfile = planfile;
+            t.meta = &meta;
+        }
         Plan m = minimise(e, cfg, p2, t);
         Outcome fin = e.execute(m, cfg);
         ReplayFile r;
@@ -805,9 +830,14 @@ int sim_main(int argc, char** argv, Engine& e)
             {
                 if (!e.fault_ok(plan.ops[j], fk))
                     continue;
-                int ns = std::min(base.sites[j][fk], 48);
-                for (int s = 0; s < ns && !stop; s++)
+                int total = base.sites[j][fk];
+                int cap = e.max_sites(cfg.tier);
+                int ns = std::min(total, cap);
+                int phase = total > cap ? static_cast<int>(rng.below(static_cast<uint64_t>(total / cap))) : 0;
+                for (int s0 = 0; s0 < ns && !stop; s0++)
                 {
+                    // all positions when they fit the cap, otherwise evenly spread over [0,total)
+                    int s = total > cap ? std::min(total - 1, s0 * (total / cap) + phase) : s0;
                     Plan fp = threaded_base;
                     fp.ops[j].fkind = fk;
                     fp.ops[j].fidx = s;
